@@ -63,6 +63,7 @@ type gty struct {
 	elem *gty
 	name string
 	tup  []*gty
+	key  *gty // phase 7: the key type of a map that is not keyed by string (nil = string)
 }
 
 func (t *gty) String() string {
@@ -73,6 +74,9 @@ func (t *gty) String() string {
 	case "slice":
 		return "[]" + t.elem.String()
 	case "map":
+		if t.key != nil {
+			return "map[" + t.key.String() + "]" + t.elem.String()
+		}
 		return "map[string]" + t.elem.String()
 	case "named", "enum", "iface":
 		return t.name
@@ -230,6 +234,11 @@ func (u *transUnit) goType(e ast.Expr) *gty {
 			return &gty{kind: "ignored", name: "func"}
 		}
 	case *ast.StarExpr:
+		if u.step != nil && u.step.intPtr {
+			if id, ok := v.X.(*ast.Ident); ok && id.Name == "int" {
+				return &gty{kind: "enum", name: "*int"} // phase 7: *int is Option Int
+			}
+		}
 		return u.goType(v.X)
 	case *ast.ArrayType:
 		if v.Len == nil {
@@ -245,12 +254,26 @@ func (u *transUnit) goType(e ast.Expr) *gty {
 				return &gty{kind: "map", elem: el}
 			}
 		}
+		if u.step != nil && u.step.keyedMaps { // phase 7: maps keyed by int / an opaque comparable type
+			kt, el := u.goType(v.Key), u.goType(v.Value)
+			if (kt.kind == "int" || kt.kind == "enum") && el.kind != "unknown" {
+				return &gty{kind: "map", elem: el, key: kt}
+			}
+		}
 	case *ast.StructType:
 		if v.Fields == nil || len(v.Fields.List) == 0 {
 			return tyUnit
 		}
 	}
 	return tyUnk
+}
+
+// mapKeyTy: the key type of a map type (string unless the unit allows other keys, phase 7).
+func mapKeyTy(t *gty) *gty {
+	if t != nil && t.key != nil {
+		return t.key
+	}
+	return tyString
 }
 
 func (u *transUnit) leanType(t *gty) string {
@@ -276,6 +299,9 @@ func (u *transUnit) leanType(t *gty) string {
 	case "slice":
 		return "(List " + u.leanType(t.elem) + ")"
 	case "map":
+		if t.key != nil {
+			return "(GoMapK " + u.leanType(t.key) + " " + u.leanType(t.elem) + ")"
+		}
 		return "(GoMap " + u.leanType(t.elem) + ")"
 	case "enum":
 		return u.enumTypes[t.name]
@@ -407,7 +433,7 @@ func (u *transUnit) declareStruct(name string, skipFields map[string]bool) {
 	u.structs[name] = fs
 	u.structOrder = append(u.structOrder, name)
 	var sb strings.Builder
-	fmt.Fprintf(&sb, "/-- Go: type %s struct (compose) -/\nstructure %s (V : Type) where\n", name, u.leanStructName(name))
+	fmt.Fprintf(&sb, "/-- Go: type %s struct (%s) -/\nstructure %s (V : Type) where\n", name, u.pkg.Dir, u.leanStructName(name))
 	for _, f := range fs {
 		fmt.Fprintf(&sb, "  %s : %s\n", leanIdent(f.name), u.leanType(f.ty))
 	}
@@ -452,6 +478,7 @@ type fnCtx struct {
 	inShort int      // > 0 while translating the right operand of && / ||
 	next    ast.Stmt // the statement after the one being translated (same block), if any
 	initOf  *ast.IfStmt // phase 6: the if statement whose Init is being translated
+	typeParams map[string]bool // phase 7: type parameters of the function (parameters holding a reflect.Type)
 }
 
 type rangedMap struct{ m, key string }
@@ -653,9 +680,9 @@ func (c *fnCtx) expr(e ast.Expr, want *gty) (string, *gty) {
 				c.fail(v.Pos(), "an entry of a map of objects (%s) can only be the receiver of a method call", exprString(v))
 				return "default", tyUnk
 			}
-			ks, kt := c.expr(v.Index, tyString)
-			if kt.kind != "string" {
-				c.fail(v.Pos(), "map key is not a string")
+			ks, kt := c.expr(v.Index, mapKeyTy(xt))
+			if kt.String() != mapKeyTy(xt).String() {
+				c.fail(v.Pos(), "map key is not a %s", mapKeyTy(xt))
 			}
 			return "(" + xs + ".getD' " + ks + " " + u.zero(xt.elem) + ")", xt.elem
 		}
@@ -779,7 +806,7 @@ func (c *fnCtx) assignTo(ind int, lhs ast.Expr, rhs string, pos token.Pos) {
 			c.fail(pos, "indexed assignment to a %s", mt)
 			return
 		}
-		ks, _ := c.expr(l.Index, tyString)
+		ks, _ := c.expr(l.Index, mapKeyTy(mt))
 		for _, rm := range c.ranged {
 			if rm.m == exprString(l.X) && rm.key != exprString(l.Index) {
 				// Go: whether an entry added during a range is visited is unspecified
@@ -897,7 +924,7 @@ func (c *fnCtx) commaOk(ind int, as *ast.AssignStmt) bool {
 	if mt.kind != "map" {
 		return false
 	}
-	ks, _ := c.expr(ix.Index, tyString)
+	ks, _ := c.expr(ix.Index, mapKeyTy(mt))
 	if c.u.step != nil && mt.elem.kind == "named" && c.u.step.valueStructs[mt.elem.name] {
 		c.stepCheckNilGuard(as)
 	}
@@ -1309,7 +1336,7 @@ func (c *fnCtx) stmt(ind int, s ast.Stmt) {
 				c.ranged = append(c.ranged, rangedMap{exprString(v.X), exprString(v.Key)})
 				defer func() { c.ranged = c.ranged[:len(c.ranged)-1] }()
 			}
-			k := name(v.Key, tyString)
+			k := name(v.Key, mapKeyTy(xt))
 			val := name(v.Value, xt.elem)
 			if isObject(xt.elem) && val != "_" {
 				// the range value is a reference to the entry being visited
@@ -1322,6 +1349,9 @@ func (c *fnCtx) stmt(ind int, s ast.Stmt) {
 				}
 				c.sc.vars[exprString(v.Value)].ref = &refInfo{mapExpr: v.X, keyLean: k, name: val, hasValue: true}
 				u.noteAssume("a Go map has one entry per key: while ranging over " + exprString(v.X) + " the range value is the current entry (entries written back under other keys do not change it)")
+			}
+			if u.step != nil && u.step.rangeOracle != nil {
+				xs = c.rangeOrderOf(xs, xt, v)
 			}
 			c.line(ind, fmt.Sprintf("for (%s, %s) in %s do", k, val, xs))
 		case "slice":
@@ -1536,6 +1566,11 @@ func (u *transUnit) transFuncMode(recv, name, leanName string, mayPanic bool) bo
 			mutNames = append(mutNames, ln)
 		}
 	}
+	if u.step != nil && (u.step.typeParamTy != "" || len(u.step.globals) > 0) {
+		c.regExtraParams(&params, &paramTys, &paramNames, &mutNames) // phase 7: type parameters, package-level state
+	} else if fd.Type.TypeParams != nil && len(fd.Type.TypeParams.List) > 0 {
+		c.fail(fd.Pos(), "generic function")
+	}
 	if fd.Type.Results != nil {
 		for _, f := range fd.Type.Results.List {
 			if len(f.Names) > 0 {
@@ -1605,7 +1640,7 @@ func (u *transUnit) transFuncMode(recv, name, leanName string, mayPanic bool) bo
 		}
 		fmt.Fprintf(&sb, "(%s %s%s) ", c.recv, star, recv)
 	}
-	fmt.Fprintf(&sb, "%s — compose/%s (translated) -/\n", name, file)
+	fmt.Fprintf(&sb, "%s — %s/%s (translated) -/\n", name, u.pkg.Dir, file)
 	fuel := ""
 	if c.fuelUsed {
 		fuel = " (fuel : Nat)"
@@ -1721,7 +1756,7 @@ func (u *transUnit) declareStringConst(name string) {
 								u.consts = map[string]string{}
 							}
 							u.consts[name] = bl.Value
-							u.defs = append(u.defs, fmt.Sprintf("/-- Go: const %s = %s (compose/%s) -/\ndef const_%s : String := %s", name, bl.Value, n, name, bl.Value))
+							u.defs = append(u.defs, fmt.Sprintf("/-- Go: const %s = %s (%s/%s) -/\ndef const_%s : String := %s", name, bl.Value, u.pkg.Dir, n, name, bl.Value))
 							return
 						}
 					}
